@@ -4,7 +4,7 @@ use std::fmt::{Display, Formatter};
 use std::str::FromStr;
 use std::sync::OnceLock;
 
-use chrono::{DateTime, Datelike, FixedOffset, NaiveDateTime, Timelike};
+use chrono::{DateTime, Datelike, FixedOffset, NaiveDateTime};
 use serde::Serialize;
 
 /// unix timestamp counts from 1970-01-01 00:00:00,
@@ -21,17 +21,17 @@ const DEFALUT_TZ: i32 = 0;
 
 /// input format without timezone
 const TIMESTAMP_FORMATS: [&str; 3] = [
-    "%Y-%m-%d %H:%M:%S",    // 1991-01-08 04:05:06
-    "%Y-%m-%d %H:%M:%S AD", // 1991-01-08 04:05:06 AD
-    "%Y-%m-%d %H:%M:%S BC", // 1991-01-08 04:05:06 BC
+    "%Y-%m-%d %H:%M:%S%.f",    // 1991-01-08 04:05:06
+    "%Y-%m-%d %H:%M:%S%.f AD", // 1991-01-08 04:05:06 AD
+    "%Y-%m-%d %H:%M:%S%.f BC", // 1991-01-08 04:05:06 BC
 ];
 /// input format with timezone
 const TIMESTAMP_TZ_FORMATS: [&str; 5] = [
-    "%Y-%m-%d %H:%M:%S %z",    // 1991-01-08 04:05:06 +08:00
-    "%Y-%m-%d %H:%M:%S %z AD", // 1991-01-08 04:05:06 +08:00 AD
-    "%Y-%m-%d %H:%M:%S %z BC", // 1991-01-08 04:05:06 +08:00 BC
-    "%Y-%m-%d %H:%M:%S AD %z", // 1991-01-08 04:05:06 AD +08:00
-    "%Y-%m-%d %H:%M:%S BC %z", // 1991-01-08 04:05:06 BC +08:00
+    "%Y-%m-%d %H:%M:%S%.f %z",    // 1991-01-08 04:05:06 +08:00
+    "%Y-%m-%d %H:%M:%S%.f %z AD", // 1991-01-08 04:05:06 +08:00 AD
+    "%Y-%m-%d %H:%M:%S%.f %z BC", // 1991-01-08 04:05:06 +08:00 BC
+    "%Y-%m-%d %H:%M:%S%.f AD %z", // 1991-01-08 04:05:06 AD +08:00
+    "%Y-%m-%d %H:%M:%S%.f BC %z", // 1991-01-08 04:05:06 BC +08:00
 ];
 
 #[derive(PartialOrd, Ord, PartialEq, Eq, Debug, Copy, Clone, Default, Hash, Serialize)]
@@ -67,8 +67,8 @@ impl Display for Timestamp {
 
 /// The UTC date-time of a stored value, `None` if chrono cannot represent it.
 fn to_naive_utc(us: i64) -> Option<NaiveDateTime> {
-    let millis = us.checked_sub(THIRTY_YEARS_MICROSECONDS)? / 1000;
-    Some(DateTime::from_timestamp_millis(millis)?.naive_utc())
+    let micros = us.checked_sub(THIRTY_YEARS_MICROSECONDS)?;
+    Some(DateTime::from_timestamp_micros(micros)?.naive_utc())
 }
 
 impl FromStr for Timestamp {
@@ -131,16 +131,15 @@ impl FromStr for TimestampTz {
 
 fn naive_sys_fmt(dt: &NaiveDateTime, f: &mut Formatter<'_>) -> std::fmt::Result {
     if dt.year() < 0 {
-        write!(
-            f,
-            "{:04}-{:02}-{:02} {:02}:{:02}:{:02} BC",
-            -dt.year(),
-            dt.month(),
-            dt.day(),
-            dt.hour(),
-            dt.minute(),
-            dt.second()
-        )
+        // the year is printed like chrono's `%Y` (signed beyond 4 digits) so that it parses back,
+        // the time (with its fraction, if any) by chrono itself
+        let year = -dt.year();
+        if year > 9999 {
+            write!(f, "{:+05}", year)?;
+        } else {
+            write!(f, "{:04}", year)?;
+        }
+        write!(f, "-{:02}-{:02} {} BC", dt.month(), dt.day(), dt.time())
     } else {
         write!(f, "{}", dt)
     }
